@@ -1,6 +1,7 @@
 #!/usr/bin/env python3
-"""Dev tool: run every check against a behaviour-preserving refactoring of asphalt (a patch produced by a sub-agent
-in the scratch worktree /tmp/refac/w<N>); every check must stay quiet. usage: refac.py <N> [<N> ...]"""
+"""Dev tool: run every check against a behaviour-preserving refactoring of asphalt (refactorings/R<N>/patch.diff,
+produced by a sub-agent that saw nothing of /verif) in a scratch worktree /tmp/refac/w<N> that is created here and
+removed afterwards; every check must stay quiet. usage: refac.py <N> [<N> ...]"""
 import json
 import subprocess
 import sys
@@ -17,9 +18,9 @@ def sh(cmd: str, timeout: int = 1500) -> tuple[int, str]:
 
 
 def one(n: str) -> dict:
-    wt, out = f"/tmp/refac/w{n}", f"/tmp/refac/out{n}"
+    wt, out = f"/tmp/refac/w{n}", f"{VERIF}/refactorings/R{n}"
     head = sh("git -C /repo rev-parse HEAD")[1].strip()
-    sh(f"git -C {wt} checkout -q --detach {head}")
+    sh(f"git -C /repo worktree remove --force {wt}; mkdir -p /tmp/refac && git -C /repo worktree add -q --detach {wt} {head}")
     rc, o = sh(f"git -C {wt} apply {out}/patch.diff")
     res: dict = {"refactoring": n, "apply": rc, "alarms": []}
     try:
@@ -32,7 +33,7 @@ def one(n: str) -> dict:
                     if not line.startswith("OK "):
                         res["alarms"].append(line)
     finally:
-        sh(f"git -C {wt} checkout -- . && git -C {wt} clean -fdq")
+        sh(f"git -C /repo worktree remove --force {wt}")
     return res
 
 
